@@ -24,6 +24,8 @@ Seeds(c) ==
     [] c = "FSI" -> {<<<<<<"P", 1, "chromosome">>, <<"P", 1, "chromosome">>>>, <<"+", "+">>>>,
                      <<<<<<"P", 0, "chromosome">>, <<"P", 0, "chromosome">>, <<"P", 0, "chromosome">>>>, <<"-", "-", "-">>>>,
                      <<<<<<>>, <<>>>>, <<"+", "+">>>>, <<<<<<"P", 2, "plasmid">>>>, <<"-">>>>}
+    [] c = "RPOS" -> {<<<<5>>, <<10>>, "+", 2>>, <<<<5>>, <<10>>, "-", 4>>, <<<<0>>, <<5>>, "-", 0>>, <<<<1, 6>>, <<4, 9>>, "+", 5>>,
+                      <<<<1, 6>>, <<4, 9>>, "-", 0>>}
     [] c = "CODON" -> {<<<<"G", "C", "A">>>>, <<<<"a", "t", "g">>>>, <<<<"N", "R", "y">>>>}
 Init == cls \in Classes /\ args \in Seeds(cls) /\ kind = "none" /\ phase = "seed"
 DoCorrupt(k) == /\ phase = "seed" /\ Corrupt(cls, args, k) # args
